@@ -83,7 +83,9 @@ func (eng *RedisEmu) Start() {
 }
 
 func (eng *RedisEmu) RequestTermination() {
+	simBeforeLock(&eng.mu, "eng.mu")
 	eng.mu.Lock()
+	defer simAfterUnlock(&eng.mu, "eng.mu")
 	defer eng.mu.Unlock()
 
 	if eng.server != nil {
@@ -245,7 +247,9 @@ func (eng *RedisEmu) Close() {
 }
 
 func (eng *RedisEmu) SetHook(hook DispatchHook) {
+	simBeforeLock(&eng.mu, "eng.mu")
 	eng.mu.Lock()
+	defer simAfterUnlock(&eng.mu, "eng.mu")
 	defer eng.mu.Unlock()
 
 	eng.hook = hook
